@@ -68,6 +68,20 @@ def check_containers(vs, probe):
     dup = set(inds + [I(v) for v in vs])
     if len(dup) != len(vs):
         out.append(("C20:set:identical-not-merged", "set of %r twice has %d members" % (vs, len(dup))))
+    # the set-based de-duplication inside nondominated_truncate: every design offered twice (different objects), room for all
+    try:
+        from artap.operators import nondominated_truncate
+        pop = [I(v) for v in vs] + [I(v) for v in vs]
+        for k, x in enumerate(pop):
+            x.features["front_number"], x.features["crowding_distance"] = 1, float(k % len(vs))
+        got = sorted(tuple(float(c) for c in x.vector) for x in nondominated_truncate(pop, 2 * len(vs) + 1))
+        want = sorted(tuple(float(c) for c in v) for v in vs)
+        if got != want:
+            lost = [v for v in want if v not in got]
+            out.append(("C20:truncate-dedup:%s" % ("distinct-design-discarded" if lost else "repeated-design-kept"),
+                        "nondominated_truncate of %r, each twice, with room for all keeps %r" % (vs[:6], got[:8])))
+    except Exception as e:
+        out.append(("C20:truncate-dedup:exception:%s" % type(e).__name__, "nondominated_truncate of %r twice raised %r" % (vs[:6], e)))
     # list.remove / Archive.remove must take out exactly the design asked for
     for k, v in enumerate(vs):
         lst = list(inds)
@@ -512,3 +526,4 @@ def run(tier, seed):
 RULE += (' Pairs with equal ids (assigned, copy, deepcopy, from_dict, restarted counter) and pairs carried by different individual classes (5 x 5 class pairs): equality, hash, membership, set, Archive.remove.')
 
 RULE += (' Beyond small: generate() for populations of 31..257 over children 1e-7 apart, with exact repeats and with large coordinates; vectors of 31..1025 coordinates differing at one position; containers of 300 designs; designs built from a re-used numpy buffer.')
+RULE += (' Container behaviours include the set-based de-duplication of nondominated_truncate (every design offered twice, room for all).')
